@@ -249,12 +249,12 @@ def collectors(run, funcs):
 def check(run):
     funcs, info = engine.load_mir('ibig')
     run.mir_info.append(info)
-    compile_checks(run)
-    data_alignment(run, funcs)
-    base_triangles(run, funcs)
-    collectors(run, funcs)
-    BR.check_face_loops(run, funcs, 'C14')
-    BR.check_cell_loop(run, funcs, 'C14')
+    run.guard(compile_checks)
+    run.guard(data_alignment, funcs)
+    run.guard(base_triangles, funcs)
+    run.guard(collectors, funcs)
+    run.guard(BR.check_face_loops, funcs, 'C14')
+    run.guard(BR.check_cell_loop, funcs, 'C14')
     run.assume('that the signed tetrahedra sum to the cell (global tiling), second moments and with/without-faces agreement need the whole float pipeline: outside')
     return run.finish(LEVEL, EXPLANATION, trusted=['rustc (type checking of the downstream crates)', 'rustc -Zunpretty=mir', 'z3 5.1.0 / 4.8.12, cvc5 1.0.3', 'glam / std models of mirsym'])
 
